@@ -1,7 +1,7 @@
 """C16 - writer pipeline: the code has the shape from which 'output independent of the
 interleaving, always completes' follows by the lemma of DESIGN.md (section C16)."""
 import ast
-from ..core import U, AnalysisError, parent
+from ..core import enclosing_stmt, U, AnalysisError, parent
 from ..facts import FactMap, happened_before
 from ..pipeline import Pipeline, calls_in, in_loop, in_branch
 
@@ -48,6 +48,8 @@ def run(ctx):
     ctx.rule('C16.4', 'main thread: producers < join(q_in) < join(q_out) < flush < return; handle untouched meanwhile')
     ctx.rule('C16.5', 'callers: footer writes and in-place patches after the loop returned, inside the output with-block')
     ctx.rule('C16.6', 'producers run on the calling thread only; hash updates likewise')
+    ctx.rule('C16.7', 'ownership: every object put on the queue is freshly allocated in the same group iteration')
+    ownership(ctx)
     fm_main = FactMap(main.node)
 
     # ---- C16.1
@@ -308,3 +310,56 @@ def check_consumer(ctx, rule, f, work, work_name, forward):
             ctx.fail(rule, f, puts[0], 'put() does not forward the result of %s of this iteration' % work_name)
         else:
             ctx.ok(rule, f, puts[0], 'put() forwards `%s`, the result of %s of this iteration' % (res, work_name))
+
+
+FRESH = {'zeros', 'empty', 'ones', 'full', 'pad', 'array', 'ascontiguousarray', 'copy', 'zeros_like', 'empty_like', 'stack',
+         'concatenate'}
+
+
+def ownership(ctx):
+    """C16.7: a buffer handed to the compressor thread is owned by that thread from the put on: the producer must not
+    write it again.  Structural form: the object passed to queue.put is bound, inside the same iteration of the group
+    loop, to a fresh allocation (np.zeros / np.pad / .copy() ...), never to something created outside the loop or drawn
+    from a pool - otherwise, for some interleaving, the producer refills a buffer the compressor is still coding."""
+    from .. import producers as PR
+    P, G = ctx.P, ctx.G
+    pl, prods = PR.producers(P, G)
+    n = 0
+    for pr in prods:
+        f = pr.func
+        if pr.group_loop is None:
+            raise AnalysisError('%s: group loop not found' % f.qualname)
+        for c in pr.puts:
+            a = c.args[0] if c.args else None
+            n += 1
+            if a is None:
+                continue
+            if isinstance(a, ast.Call):
+                ok = U(a.func).split('.')[-1] in FRESH
+                (ctx.ok if ok else ctx.fail)('C16.7', f, c, 'put of a fresh object' if ok else
+                                             'the object put on the queue is `%s`' % U(a)[:50])
+                continue
+            if not isinstance(a, ast.Name):
+                raise AnalysisError('%s: queue.put argument `%s` is not a local' % (f.qualname, U(a)[:40]))
+            defs = [d for d in ast.walk(f.node) if isinstance(d, ast.Assign) and any(
+                isinstance(t, ast.Name) and t.id == a.id for t in d.targets)]
+            if not defs:
+                ctx.fail('C16.7', f, enclosing_stmt(c), 'the object put on the queue (`%s`) is not created by the producer: a '
+                         'caller-owned object is shared with the compressor thread' % a.id, line=c.lineno)
+                continue
+            bad = None
+            for d in defs:
+                inside = any(d is x for x in ast.walk(pr.group_loop))
+                v = d.value
+                fresh = isinstance(v, ast.Call) and U(v.func).split('.')[-1] in FRESH
+                if not inside:
+                    bad = (d, 'it is bound outside the group loop, so every iteration puts the same object')
+                elif not fresh:
+                    bad = (d, 'it is bound to `%s`, which is not a fresh allocation (a pooled / reused / aliased buffer)' % U(v)[:50])
+            if bad:
+                ctx.fail('C16.7', f, bad[0], 'the buffer `%s` handed to the compressor thread is reused by the producer: %s; for '
+                         'some interleaving the producer overwrites a plane set that is still being compressed, and the '
+                         'output depends on the schedule' % (a.id, bad[1]), key_extra=a.id)
+            else:
+                ctx.ok('C16.7', f, c, '`%s` is a fresh allocation of this group iteration: ownership passes to the consumer' % a.id)
+    ctx.floor('C16.7', 5, 'queue.put sites of the producers')
